@@ -346,6 +346,31 @@ class PathEngine:
             if found and all(f is not None and f == found[0] for f in found):
                 return found[0]
             return None
+        if len(binds) == 1 and isinstance(binds[0], ast.Call) and isinstance(binds[0].func, ast.Name) and not any(isinstance(a, ast.Starred) for a in binds[0].args) and all(k.arg is not None for k in binds[0].keywords):
+            # ... or to a parameter object built on the spot (`call_options = _CallOptions(on_metric=on_metric, ...)`, a
+            # record class that did not exist when the rules were written): its constructor term, fields by name
+            cands = self._classes_named(binds[0].func.id)
+            rc = self._new_record_class(cands[0]) if len(cands) == 1 else None
+            if rc is None:
+                return None
+            fields = self.prog.all_fields(rc)
+            if len(binds[0].args) > len(fields):
+                return None
+            kws = []
+            for fname, v in list(zip(fields, binds[0].args)) + [(k.arg, k.value) for k in binds[0].keywords]:
+                if isinstance(v, ast.Name):
+                    kws.append((fname, ("free", v.id)))
+                elif isinstance(v, ast.Constant):
+                    kws.append((fname, ("const", v.value)))
+                elif _only_pure_calls(v):
+                    try:
+                        env0 = {n.id: ("free", n.id) for n in ast.walk(v) if isinstance(n, ast.Name) and n.id not in PURE_BUILTINS}
+                        kws.append((fname, self._pure_sym(v, env0, {}, self.cfgs.get(outer))))
+                    except AnalysisError:
+                        return None
+                else:
+                    return None
+            return ("pure", "new " + rc.name, (), tuple(sorted(kws)))
         if len(binds) != 1 or not isinstance(binds[0], ast.Dict):
             return None
         items = []
@@ -444,11 +469,21 @@ class PathEngine:
             return None
         return self._new_record_class(cl[0])
 
+    def _classes_named(self, name: str) -> list[str]:
+        """qualified names of the classes called `name`; twins that each keep a private record of the same name and the
+        same fields (one per module) count as one"""
+        cands = [q for q, c in self.prog.classes.items() if c.name == name]
+        if len(cands) > 1:
+            shapes = {tuple(self.prog.all_fields(self.prog.classes[q])) for q in cands}
+            if len(shapes) == 1 and all(not self.prog.classes[q].methods for q in cands):
+                return cands[:1]
+        return cands
+
     def _record_field(self, base: Any, key: Any, cfg: CFG) -> Any:
         """value of field `key` (name or index) of `base` when base is a parameter object or its constructor term"""
         if isinstance(base, tuple) and base[0] == "pure" and isinstance(base[1], str) and base[1].startswith("new "):
             cname = base[1][4:]
-            cands = [q for q, c in self.prog.classes.items() if c.name == cname]
+            cands = self._classes_named(cname)
             ci = self._new_record_class(cands[0]) if len(cands) == 1 else None
             if ci is None and len(cands) == 1 and isinstance(key, str) and self._holder_fields(self.prog.classes[cands[0]]) is not None:
                 return dict(base[3]).get(key)
@@ -1274,7 +1309,7 @@ class PathEngine:
             # NamedTuple._asdict() of a parameter object: the (shallow) dict of its fields
             rc = None
             if isinstance(recv, tuple) and recv and recv[0] == "pure" and isinstance(recv[1], str) and recv[1].startswith("new "):
-                cands = [q for q, c in self.prog.classes.items() if c.name == recv[1][4:]]
+                cands = self._classes_named(recv[1][4:])
                 rc = self._new_record_class(cands[0]) if len(cands) == 1 else None
             else:
                 rc = self._record_of_param(recv, cfg)
@@ -1322,7 +1357,7 @@ class PathEngine:
                 # a parameter object built for this call: its fields count as arguments under their own names
                 for v in list(bound.values()):
                     if isinstance(v, tuple) and v and v[0] == "pure" and isinstance(v[1], str) and v[1].startswith("new "):
-                        cands = [q for q, c in self.prog.classes.items() if c.name == v[1][4:]]
+                        cands = self._classes_named(v[1][4:])
                         rc = self._new_record_class(cands[0]) if len(cands) == 1 else None
                         if rc is not None:
                             for fname in self.prog.all_fields(rc):
